@@ -29,3 +29,64 @@ Theorem C19_undisturbed_run_publishes_partial :
     cur d' = Some (S (maxc d)) /\ In (S (maxc d)) (dirs d') /\ ~ In (S (maxc d)) (dirs d).
 Proof. intros d. apply undisturbed_run_publishes_proved. exact C19_script_passes_checker. Qed.
 Print Assumptions C19_undisturbed_run_publishes_partial.
+
+(* ---- liveness: "the next undisturbed run makes the newest compiling revision current" ----
+   Newpolicy/Live.v models what decides whether a run does anything: the directory next, the marker
+   failed, the revision current was compiled from, the head of the repository, and the test uptodate
+   (whose text in the script is tied by its hash, see vlib/translators.py). *)
+From Coq Require Import Bool Arith.
+From NA Require Import Newpolicy.Live Newpolicy.LiveProofs.
+
+Theorem C19_script_passes_liveness_checker : check_live newpolicy_script = true.
+Proof. vm_compute. reflexivity. Qed.
+Print Assumptions C19_script_passes_liveness_checker.
+
+(* after every history of commits (compiling or not, [good] is arbitrary) and runs killed after any number of
+   operations, the marker exists only together with the directory of a compile that failed *)
+Theorem C19_marker_only_with_failed_compile :
+  forall good h, marker_ok good (steps newpolicy_script good linit h).
+Proof. intros good h. apply marker_ok_history. exact C19_script_passes_liveness_checker. Qed.
+Print Assumptions C19_marker_only_with_failed_compile.
+
+(* ... and then, if the head of the repository compiles, one undisturbed run makes it current,
+   and a further run finds everything up to date *)
+Theorem C19_newest_compiling_head_becomes_current :
+  forall good h, let s := steps newpolicy_script good linit h in
+  good (head s) = true ->
+  curr (undisturbed newpolicy_script good s) = Some (head s) /\ uptodate (undisturbed newpolicy_script good s) = true.
+Proof.
+  intros good h s G. split.
+  - apply newest_compiling_head_becomes_current; [exact C19_script_passes_liveness_checker | exact G].
+  - apply then_up_to_date; [exact C19_script_passes_liveness_checker | apply marker_ok_history; exact C19_script_passes_liveness_checker | exact G].
+Qed.
+Print Assumptions C19_newest_compiling_head_becomes_current.
+
+(* a head that does not compile never changes current, wherever the run is killed *)
+Theorem C19_bad_head_keeps_current :
+  forall good s k, good (head s) = false -> curr (live_run newpolicy_script good s k) = curr s.
+Proof. intros good s k G. apply bad_head_keeps_current; [exact C19_script_passes_liveness_checker | exact G]. Qed.
+Print Assumptions C19_bad_head_keeps_current.
+
+(* The script before the repair 8e2c570 (the marker was not removed together with the old directory next):
+   revision 5 is published; revision 1 does not compile and is not reverted; revision 2 compiles, the run
+   that processes it is killed right after the clone; from then on every undisturbed run finds "everything
+   up to date" and current stays at revision 5. *)
+Definition script_before_8e2c570 : script :=
+  {| prepare := filter (fun o => negb (op_eqb o RmFailed)) (prepare newpolicy_script);
+     on_success := on_success newpolicy_script; on_failure := on_failure newpolicy_script |}.
+Theorem C19_liveness_before_8e2c570_refuted :
+  exists good h, let s := steps script_before_8e2c570 good linit h in
+    good (head s) = true /\
+    curr (undisturbed script_before_8e2c570 good s) <> Some (head s) /\
+    curr (undisturbed script_before_8e2c570 good (undisturbed script_before_8e2c570 good s)) <> Some (head s).
+Proof.
+  exists (fun r => negb (Nat.eqb r 1)). exists (Commit 5 :: Run 100 :: Commit 1 :: Run 100 :: Commit 2 :: Run 11 :: nil).
+  vm_compute. repeat split; discriminate.
+Qed.
+Print Assumptions C19_liveness_before_8e2c570_refuted.
+(* the same history on the repaired script *)
+Example C19_same_history_after_the_repair :
+  let good := fun r => negb (Nat.eqb r 1) in
+  let s := steps newpolicy_script good linit (Commit 5 :: Run 100 :: Commit 1 :: Run 100 :: Commit 2 :: Run 12 :: nil) in
+  nxt s = Some (Some 2) /\ failed s = false /\ curr s = Some 5 /\ curr (undisturbed newpolicy_script good s) = Some 2.
+Proof. vm_compute. repeat split. Qed.
